@@ -4,6 +4,7 @@ package main
 
 import (
 	"fmt"
+	"go/token"
 	"go/types"
 	"strings"
 
@@ -309,4 +310,88 @@ func rulePolarity(r *Run, rule string, k *storeKind) {
 	}
 	r.Note(rule, "polarity:cut", w.Pos(fn.Pos())+" "+w.Name(fn),
 		"LATENT, not claimed: per-part vector-only results are 'the k smallest distances of that part' but the store sorts the merged list by descending score and cuts to k regardless of modality; with more than one distinct part it would keep the k farthest candidates. Unobservable today because every part answers from the same shared index objects (known finding C08.TMPL); to be repaired together with it.")
+}
+
+// ruleStoreForwardGuards: every optional parameter is forwarded to a part's search exactly when it was given: the call
+// search.WithX(s.f…) sits on the "f is present" side of a test of that very field (f != nil, len(f) > 0, f > 0).
+func ruleStoreForwardGuards(r *Run, rule string, k *storeKind) {
+	seg := segmentSearchFn(r.W, k)
+	fns := []*ssa.Function{k.Execute}
+	if seg != nil {
+		fns = append(fns, seg)
+	}
+	ruleForwardGuards(r, rule, fns, map[string]bool{"WithVector": true, "WithText": true, "WithMetadata": true, "WithMetadataGroups": true, "WithNProbes": true, "WithEfSearch": true, "WithThreshold": true}, 14)
+}
+
+func ruleForwardGuards(r *Run, rule string, fns []*ssa.Function, optional map[string]bool, floor int) {
+	w := r.W
+	n := 0
+	for _, fn := range fns {
+		c := NewCanon(w)
+		for _, call := range callsIn(fn, func(cc *ssa.CallCommon) bool { return cc.IsInvoke() && optional[cc.Method.Name()] }) {
+			cc := call.Common()
+			if len(cc.Args) == 0 {
+				continue
+			}
+			n++
+			arg := c.S(cc.Args[0])
+			// the builder field handed on: P0.f / FVn.f (possibly spread: f...)
+			field := arg
+			if i := strings.LastIndex(field, "."); i >= 0 {
+				field = field[i+1:]
+			}
+			field = strings.TrimRight(field, ")}].")
+			site := w.InstrPos(call) + " " + w.Name(fn)
+			key := fmt.Sprintf("params:guard:%s:%s", w.Name(fn), cc.Method.Name())
+			// nearest dominating branch that selects the call's block
+			decided := false
+			for b := call.Block(); b != nil && !decided; b = b.Idom() {
+				d := b.Idom()
+				if d == nil {
+					break
+				}
+				iff, isIf := d.Instrs[len(d.Instrs)-1].(*ssa.If)
+				if !isIf {
+					continue
+				}
+				onTrue := (d.Succs[0] == b || d.Succs[0].Dominates(b)) && len(d.Succs[0].Preds) == 1
+				onFalse := (d.Succs[1] == b || d.Succs[1].Dominates(b)) && len(d.Succs[1].Preds) == 1
+				if !onTrue && !onFalse {
+					continue
+				}
+				cond, neg := stripNot(iff.Cond)
+				present, known := false, false // does cond (un-negated) mean "the field is present"?
+				subject := ""
+				if x, nonNil, ok := nilCmp(c, cond); ok {
+					subject, present, known = x, nonNil, true
+				} else if x, nonEmpty, ok := nonEmptyCmp(c, cond); ok {
+					subject, present, known = x, nonEmpty, true
+				} else if bo, isB := cond.(*ssa.BinOp); isB {
+					if cmp, n2, ok := normCmp(c, bo); ok {
+						switch {
+						case cmp.Op == token.LSS && cmp.L == "c(0)": // 0 < f
+							subject, present, known = cmp.R, !n2, true
+						case cmp.Op == token.LEQ && cmp.R == "c(0)": // f <= 0
+							subject, present, known = cmp.L, n2, true
+						}
+					}
+				}
+				if !known || !strings.HasSuffix(subject, "."+field) {
+					continue // some other branch (loop condition, error test): look further up
+				}
+				decided = true
+				if neg {
+					present = !present
+				}
+				good := (present && onTrue) || (!present && onFalse)
+				r.Check(good, rule, key, site, cc.Method.Name()+" is applied exactly when "+field+" was given", cc.Method.Name()+" is applied on the side of the test of "+field+" where the parameter is absent: a given parameter is dropped and an absent one is forced on the sub-search")
+			}
+			if !decided {
+				r.Bad(rule, key, site, cc.Method.Name()+"("+arg+") is not selected by a presence test of "+field+" (non-nil / non-empty / positive)")
+			}
+		}
+	}
+	if n < floor {
+		r.add(rule, "params:guard:floor", "-", fmt.Sprintf("%d optional forwards found, floor is %d", n, floor), Floor)
+	}
 }
